@@ -12,8 +12,8 @@ PROPERTY = 'C05'
 MANIFEST = {
     'level_text': 'Proved for all table sizes / site counts (relative to the assumed numpy contracts): the count matrix is exact cell by cell '
                   '(np.unique-rows + fancy assignment incl. negative-index wrap), empty diagonal for jump tables, callee preconditions of the '
-                  'thin callers, scalar structure and summand of jump_diffusivity; matrix total = number of table rows by the L-partition lemma '
-                  '(two nested inductions). Bounded only: per-label counter, graph edge set, occupancies (exhaustive small tables + seeded random histories on the real classes). '
+                  'thin callers, scalar structure and summand of jump_diffusivity; matrix total = number of table rows by the L-partition lemma and sum_ij d_ij^2 M_ij = sum over jumps of d^2 by the L-exch lemma '
+                  '(two nested inductions each). Bounded only: per-label counter, graph edge set, occupancies (exhaustive small tables + seeded random histories on the real classes). '
                   'Transitions.matrix() with NOSITE rows is the recorded known finding C05-nosite-fold.',
     'level_note': 'Trusted: numpy contracts (unique(axis=0,return_counts), fancy assignment, sum), pandas column access, pymatgen '
                   'get_all_distances as uninterpreted mindist, FloatWithUnit as float, integers unbounded, floats as reals, pyvc itself.',
@@ -26,10 +26,10 @@ META = {
     'clauses': {
         'C05.matrix': 'P: M[i,j] = Count(rows start=i, dest=j) for tables without NOSITE; with NOSITE rows the cells outside row/column n-1 (known finding C05-nosite-fold for the rest)',
         'C05.diag': 'P: empty diagonal given start != destination (C04.E2)',
-        'C05.diff': 'P: scalar structure and summand of jump_diffusivity; the exchange lemma sum_ij d_ij^2 M_ij = sum_jumps d^2 is B (bounded)',
+        'C05.diff': 'P: scalar structure and summand of jump_diffusivity; the exchange sum_ij d_ij^2 M_ij = sum_jumps d^2 by the L-exch lemma (two nested inductions)',
         'C05.sum': 'P (L-partition lemma over C05.matrix)', 'C05.counter/C05.graph/C05.rates/C05.occ': 'B: bounded stand-in only',
     },
-    'not_decided': ['L-exch (sum_ij d_ij^2 M_ij = sum over jumps of d^2): induction lemma not built; bounded stand-in instead'],
+    'not_decided': [],
 }
 
 
@@ -253,6 +253,8 @@ def unit_partition(tier):
     from verif.props.common import partition_lemmas
     u = Unit('C05.partition')
     partition_lemmas(u, 'C05', 'sum of the count matrix = number of table rows (cells = bins, rows = samples)')
+    from verif.props.common import weighted_partition_lemmas
+    weighted_partition_lemmas(u, 'C05', 'sum_ij d_ij^2 M_ij = sum over the jumps of the squared origin-destination distance (w = d^2 of the cell)')
     return u
 
 
